@@ -150,7 +150,14 @@ numbered in the library's key order), script hash = descriptor. -/
 def contractOf (m : Nat) (ks : List Nat) : Option String :=
   if 1 ≤ m ∧ m ≤ ks.length ∧ ks.length ≤ 1024 then some (descOf m (ks.mergeSort (· ≤ ·))) else none
 
-def step (thr : Int → Int) (st : St) (toks : List String) : St × String :=
+/-- a trailing `r<k>` token selects another state root for the same index: irrelevant to the decision -/
+def dropRoot (toks : List String) : List String :=
+  match toks with
+  | [a, b, c, d, r] => if (a == "nmsg" || a == "nmsg3") && r.startsWith "r" then [a, b, c, d] else toks
+  | _ => toks
+
+def step (thr : Int → Int) (st : St) (toks0 : List String) : St × String :=
+  let toks := dropRoot toks0
   match toks with
   | ["ngen", i, cons] =>
     match i.toNat?, parseDesc cons with
